@@ -32,6 +32,9 @@
 (*            name the class it needs;                                     *)
 (*   classes  admissible operand type classes (see Concrete);              *)
 (*   succs    the slots that are successors, in successor order;           *)
+(*   index paths (AggPaths, GepPaths): per class the paths of extractvalue /  *)
+(*            insertvalue / getelementptr, lengths 1..3(4), through nested  *)
+(*            literal, identified and packed structs and arrays;           *)
 (*   rty      result-type rule; ctx: the context the instruction needs to  *)
 (*            be valid LLVM (scaffold built by Build.tla).                 *)
 (* CExprs     the constant-expression kinds (same shape, cat "cexpr").     *)
@@ -57,6 +60,7 @@ TyVec(n, e)  == [k |-> "vec", sc |-> FALSE, n |-> n, e |-> e]
 TySVec(n, e) == [k |-> "vec", sc |-> TRUE, n |-> n, e |-> e]
 TyArr(n, e)  == [k |-> "arr", n |-> n, e |-> e]
 TyStruct(fs) == [k |-> "struct", fs |-> fs]
+TyPStruct(fs) == [k |-> "struct", fs |-> fs, pk |-> TRUE]      \* packed struct <{ ... }>
 TyNamed(nm, body) == [k |-> "named", nm |-> nm, body |-> body]
 TyFunc(ret, ps, va) == [k |-> "func", ret |-> ret, ps |-> ps, va |-> va]
 
@@ -65,6 +69,11 @@ F32 == TyFP("float")   F64 == TyFP("double")
 I8Ptr == TyPtr(I8)
 LPTy == TyStruct(<<I8Ptr, I32>>)          \* landingpad / resume value
 PairTy == TyStruct(<<I32, I8>>)
+\* nested aggregates whose sub-objects have pairwise different types (index paths, C03)
+Nest3Ty == TyStruct(<<I32, TyStruct(<<I8, I64>>), TyArr(2, TyStruct(<<I16, F32>>))>>)
+PNestTy == TyPStruct(<<I8, TyStruct(<<I16, I32>>), F64>>)
+OuterTy == TyNamed("outer", TyStruct(<<I64, TyNamed("pair", PairTy), TyArr(2, I8)>>))
+ArrSTy  == TyArr(2, TyStruct(<<I32, I8>>))
 
 \* operand type classes -> the concrete type used for the class
 Concrete == [
@@ -78,6 +87,7 @@ Concrete == [
   pvec |-> TyVec(2, TyPtr(I32)),
   arr |-> TyArr(2, I32), struct |-> PairTy, nstruct |-> TyNamed("pair", PairTy),
   nested |-> TyStruct(<<I32, TyArr(2, I8)>>),
+  nest3 |-> Nest3Ty, pnest |-> PNestTy, outer |-> OuterTy, arrs |-> ArrSTy,
   lp |-> LPTy, none |-> TyVoid ]
 
 IsVec(t) == t.k = "vec"
@@ -89,6 +99,24 @@ PathTy(t, idx) == IF idx = <<>> THEN t
                   ELSE LET b == Body(t) IN
                        IF b.k = "struct" THEN PathTy(b.fs[Head(idx) + 1], Tail(idx))
                        ELSE PathTy(b.e, Tail(idx))
+
+\* index paths of extractvalue / insertvalue per class (the first is the default): lengths 1..3, through
+\* literal, identified and packed structs and arrays, with different indices per level
+AggPaths == [
+  struct |-> <<<<1>>, <<0>>>>, arr |-> <<<<1>>, <<0>>>>, nstruct |-> <<<<0>>, <<1>>>>,
+  nested |-> <<<<1, 0>>, <<1, 1>>, <<0>>, <<1>>>>,
+  nest3 |-> <<<<1, 0>>, <<1, 1>>, <<2, 1, 0>>, <<2, 0, 1>>, <<2, 1>>, <<0>>, <<1>>, <<2>>>>,
+  pnest |-> <<<<1, 0>>, <<1, 1>>, <<2>>, <<0>>, <<1>>>>,
+  outer |-> <<<<1, 0>>, <<1, 1>>, <<2, 1>>, <<0>>, <<2>>>>,
+  arrs |-> <<<<0, 1>>, <<1, 0>>, <<1>>>> ]
+\* index paths of getelementptr per class; the first index steps over the pointer
+GepPaths == [
+  arr |-> <<<<0, 1>>>>, struct |-> <<<<0, 1>>, <<0, 0>>>>, nstruct |-> <<<<0, 1>>>>, i32 |-> <<<<0>>>>,
+  nest3 |-> <<<<0, 2, 1, 1>>, <<0, 1, 0>>, <<0, 1, 1>>, <<0, 2, 0, 0>>, <<0, 2>>>>,
+  pnest |-> <<<<0, 1, 1>>, <<0, 2>>>>,
+  outer |-> <<<<0, 1, 1>>, <<0, 2, 1>>, <<0, 1, 0>>>>,
+  arrs |-> <<<<0, 1, 0>>, <<0, 0, 1>>>>,
+  pvec |-> <<<<0>>>> ]
 
 \* types of the i-th call argument, of the j-th bundle input, of the i-th landingpad clause
 ArgTys    == <<I32, I8Ptr>>
@@ -113,14 +141,14 @@ Lbl(n, role) == One(S(n, role, "label", "block"))
 Entry(kind, cat, res, tmpl, groups, flags, classes, rty, ctx) ==
   [kind |-> kind, cat |-> cat, res |-> res, tmpl |-> tmpl, groups |-> groups, flags |-> flags,
    classes |-> classes, rty |-> rty, ctx |-> ctx, succs |-> <<>>, variants |-> <<>>,
-   fcls |-> "", to |-> <<>>, idx |-> <<>>, cmax |-> <<>>]
+   fcls |-> "", to |-> <<>>, cmax |-> <<>>]
 With(e, o) == o @@ e          \* fields of o override those of e
 
 FMF  == <<"nnan", "ninf", "nsz", "arcp", "contract", "afn", "reassoc", "fast">>
 IntC == <<"i32", "i1", "i8", "i64", "vec", "svec">>
 FpC  == <<"float", "double", "fvec", "sfvec">>
 VecC == <<"vec", "svec", "fvec", "sfvec", "pvec">>
-AggC == <<"struct", "arr", "nstruct", "nested">>
+AggC == <<"struct", "arr", "nstruct", "nested", "nest3", "pnest", "outer", "arrs">>
 MemC == <<"i32", "i1", "i8", "i64", "float", "double", "ptr", "vec", "svec", "fvec", "pvec", "arr", "struct", "nstruct">>
 AnyC == <<"i32", "i1", "i64", "float", "double", "ptr", "vec", "svec", "fvec", "pvec", "arr", "struct", "nstruct">>
 
@@ -164,12 +192,10 @@ Kinds == <<
   Entry("shufflevector", "inst", "value", "{res}shufflevector {TV:X}, {TV:Y}, {TV:Mask}",
         <<V("X", "T"), V("Y", "T"), One(S("Mask", "value", "mask", "const"))>>, <<>>, VecC, "T", "plain"),
   \* --- aggregate --------------------------------------------------------------
-  With(Entry("extractvalue", "inst", "value", "{res}extractvalue {TV:X}{idx}",
+  Entry("extractvalue", "inst", "value", "{res}extractvalue {TV:X}{idx}",
         <<V("X", "T")>>, <<>>, AggC, "pathT", "plain"),
-       [idx |-> [struct |-> <<1>>, arr |-> <<1>>, nstruct |-> <<0>>, nested |-> <<1, 0>>]]),
-  With(Entry("insertvalue", "inst", "value", "{res}insertvalue {TV:X}, {TV:Elem}{idx}",
+  Entry("insertvalue", "inst", "value", "{res}insertvalue {TV:X}, {TV:Elem}{idx}",
         <<V("X", "T"), V("Elem", "pathT")>>, <<>>, AggC, "T", "plain"),
-       [idx |-> [struct |-> <<1>>, arr |-> <<1>>, nstruct |-> <<0>>, nested |-> <<1, 0>>]]),
   \* --- memory -----------------------------------------------------------------
   With(Entry("alloca", "inst", "value",
         "{res}alloca{f:inalloca} {ty}{TV:NElems|, }{a:align|, align }{a:addrspace|, addrspace(|)}",
@@ -209,8 +235,8 @@ Kinds == <<
                           VarC([op |-> "xchg", ordering |-> "release", syncscope |-> "singlethread"], "float")>>]),
   With(Entry("getelementptr", "inst", "value", "{res}getelementptr{f:inbounds} {ty}, {TV:Src}{TV*:Indices|, }",
         <<V("Src", "gepsrc"), Many(S("Indices", "index", "gepidx", "any"))>>, <<"inbounds">>,
-        <<"arr", "struct", "nstruct", "i32", "pvec">>, "gepT", "plain"),
-       [cmax |-> [i32 |-> 1, pvec |-> 1]]),
+        <<"arr", "struct", "nstruct", "i32", "pvec", "nest3", "pnest", "outer", "arrs">>, "gepT", "plain"),
+       [cmax |-> [i32 |-> 1, pvec |-> 1, nest3 |-> 4, pnest |-> 3, outer |-> 3, arrs |-> 3]]),
   \* --- conversion -------------------------------------------------------------
   Cast("trunc", "i32",    [i32 |-> I8, i64 |-> I32, i8 |-> I1, vec |-> TyVec(2, I8), svec |-> TySVec(2, I8)]),
   Cast("zext", "i8",     [i8 |-> I32, i1 |-> I32, i32 |-> I64, vec |-> TyVec(2, I64), svec |-> TySVec(2, I64)]),
@@ -326,7 +352,8 @@ CExprs == <<
         <<CC("X", "T"), CC("Y", "T"), CC("Mask", "mask")>>, <<>>, <<"vec", "fvec">>, "T", "const"),
   With(Entry("getelementptr", "cexpr", "value", "getelementptr{f:inbounds} ({ty}, {TV:Src}{TV*:Indices|, })",
         <<CC("Src", "gepsrc"), Many(S("Indices", "index", "gepidx", "const"))>>, <<"inbounds">>,
-        <<"arr", "struct", "nstruct", "i32">>, "gepT", "const"), [cmax |-> [i32 |-> 1]]),
+        <<"arr", "struct", "nstruct", "i32", "nest3", "outer", "arrs">>, "gepT", "const"),
+       [cmax |-> [i32 |-> 1, nest3 |-> 4, outer |-> 3, arrs |-> 3]]),
   CCast("trunc", "i32", [i32 |-> I8, i64 |-> I32]), CCast("zext", "i8", [i8 |-> I32, i32 |-> I64]), CCast("sext", "i8", [i8 |-> I32, i32 |-> I64]),
   CCast("fptrunc", "double", [double |-> F32]), CCast("fpext", "float", [float |-> F64]),
   CCast("fptoui", "float", [float |-> I32]), CCast("fptosi", "double", [double |-> I64]),
@@ -373,19 +400,23 @@ LitTy == [i1 |-> I1, i8 |-> I8, i32 |-> I32, i64 |-> I64, label |-> TyLabel, tok
 RetOf(cls) == Concrete[cls]
 CalleeTy(cls, nargs, va) == TyPtr(TyFunc(RetOf(cls), SubSeq(ArgTys, 1, nargs), va))
 
+\* index paths: the kinds that have one, the paths of a class, the default
+HasPath(e) == e.kind \in {"extractvalue", "insertvalue", "getelementptr"}
+PathsOf(e, cls) == IF e.kind = "getelementptr" THEN GepPaths[cls]
+                   ELSE IF e.kind \in {"extractvalue", "insertvalue"} THEN AggPaths[cls] ELSE <<>>
+DefPath(e, cls) == IF HasPath(e) THEN PathsOf(e, cls)[1] ELSE <<>>
+
 GepSrcTy(cls) == IF cls = "pvec" THEN Concrete.pvec ELSE TyPtr(Concrete[cls])
 GepElemTy(cls) == IF cls = "pvec" THEN I32 ELSE Concrete[cls]
-GepIdxTy(cls, i) == CASE cls = "pvec" -> TyVec(2, I64)
-                      [] cls \in {"struct", "nstruct"} -> I32
-                      [] OTHER -> I64
-GepIdxSrc(cls, i, src) == IF cls \in {"struct", "nstruct"} /\ i = 2 THEN "const" ELSE src
-GepResTy(cls, n) ==
-  CASE cls = "pvec" -> Concrete.pvec
-    [] n <= 1 -> TyPtr(Concrete[cls])
-    [] cls = "arr" -> TyPtr(I32)
-    [] OTHER -> TyPtr(I8)          \* struct / nstruct, field 1
+\* the aggregate the i-th index (i >= 2) of a getelementptr steps into
+GepLevel(cls, path, i) == PathTy(Concrete[cls], SubSeq(path, 2, i - 1))
+GepIsField(cls, path, i) == cls # "pvec" /\ i >= 2 /\ i <= Len(path) /\ Body(GepLevel(cls, path, i)).k = "struct"
+GepIdxTy(cls, path, i) == IF cls = "pvec" THEN TyVec(2, I64) ELSE IF GepIsField(cls, path, i) THEN I32 ELSE I64
+GepResTy(cls, path, n) ==
+  IF cls = "pvec" THEN Concrete.pvec
+  ELSE IF n = 0 THEN TyPtr(Concrete[cls]) ELSE TyPtr(PathTy(Concrete[cls], SubSeq(path, 2, n)))
 
-SlotTy(e, cls, s, i, attrs, nargs) ==
+SlotTy(e, cls, s, i, attrs, nargs, path) ==
   LET T == Concrete[cls] d == s.ty IN
   CASE d = "T" -> T
     [] d = "bool" -> BoolShape(T)
@@ -393,9 +424,9 @@ SlotTy(e, cls, s, i, attrs, nargs) ==
     [] d = "elemT" -> T.e
     [] d = "mask" -> MaskShape(T)
     [] d = "idx" -> IF Has(attrs, "idxty") /\ attrs.idxty = "i64" THEN I64 ELSE I32
-    [] d = "pathT" -> PathTy(T, e.idx[cls])
+    [] d = "pathT" -> PathTy(T, path)
     [] d = "gepsrc" -> GepSrcTy(cls)
-    [] d = "gepidx" -> GepIdxTy(cls, i)
+    [] d = "gepidx" -> GepIdxTy(cls, path, i)
     [] d = "arg" -> ArgTys[i]
     [] d = "clause" -> ClauseTys[i]
     [] d = "callee" -> CalleeTy(cls, nargs, Has(attrs, "variadic"))
@@ -415,16 +446,16 @@ ArgCount(e, cfg) ==
   IF is = {} THEN 0 ELSE cfg.cnt[CHOOSE i \in is : TRUE]
 
 \* result type of the instruction in configuration cfg ("none": no result)
-ResTy(e, cls, cfg, attrs) ==
+ResTy(e, cls, cfg, attrs, path) ==
   LET T == Concrete[cls] r == e.rty IN
   CASE r = "T" -> T
     [] r = "bool" -> BoolShape(T)
     [] r = "elemT" -> T.e
     [] r = "to" -> IF Has(e.to, cls) THEN e.to[cls] ELSE TyVoid
-    [] r = "pathT" -> PathTy(T, e.idx[cls])
+    [] r = "pathT" -> PathTy(T, path)
     [] r = "allocaT" -> TyPtrAS(T, IF Has(attrs, "addrspace") THEN 1 ELSE 0)
     [] r = "cmpxchgT" -> TyStruct(<<T, I1>>)
-    [] r = "gepT" -> GepResTy(cls, cfg.cnt[2])
+    [] r = "gepT" -> GepResTy(cls, path, cfg.cnt[2])
     [] r = "token" -> TyToken
     [] OTHER -> TyVoid
 
@@ -433,21 +464,24 @@ ResTy(e, cls, cfg, attrs) ==
 RECURSIVE FlatSeq(_)
 FlatSeq(ss) == IF ss = <<>> THEN <<>> ELSE Head(ss) \o FlatSeq(Tail(ss))
 
-GroupOps(e, cls, g, c, attrs, nargs) ==
+\* cv: the value a constant operand must have (a struct field number of a getelementptr), else -1
+GroupOps(e, cls, g, c, attrs, nargs, path) ==
   FlatSeq([i \in 1..c |->
     [m \in 1..Len(g.mem) |->
+      LET field == g.mem[m].ty = "gepidx" /\ GepIsField(cls, path, i) IN
       [slot |-> g.mem[m].n, i |-> i, j |-> 0, role |-> g.mem[m].role,
-       ty |-> SlotTy(e, cls, g.mem[m], i, attrs, nargs),
-       src |-> IF g.mem[m].ty = "gepidx" THEN GepIdxSrc(cls, i, g.mem[m].src) ELSE g.mem[m].src]]])
+       ty |-> SlotTy(e, cls, g.mem[m], i, attrs, nargs, path),
+       src |-> IF field THEN "const" ELSE g.mem[m].src,
+       cv |-> IF g.mem[m].ty = "gepidx" /\ i <= Len(path) /\ (field \/ g.mem[m].src = "const") THEN path[i] ELSE -1]]])
 BundleOps(bund) ==
   FlatSeq([b \in 1..Len(bund) |->
     [j \in 1..bund[b] |-> [slot |-> "OperandBundles.Inputs", i |-> b, j |-> j, role |-> "bundle input",
-                           ty |-> BundleTys[j], src |-> "any"]]])
-OpsOf(e, cls, cfg, attrs) ==
+                           ty |-> BundleTys[j], src |-> "any", cv |-> -1]]])
+OpsOf(e, cls, cfg, attrs, path) ==
   LET nargs == ArgCount(e, cfg) IN
   FlatSeq([gi \in 1..Len(e.groups) |->
     IF e.groups[gi].ar = "bundles" THEN BundleOps(cfg.bund)
-    ELSE GroupOps(e, cls, e.groups[gi], cfg.cnt[gi], attrs, nargs)])
+    ELSE GroupOps(e, cls, e.groups[gi], cfg.cnt[gi], attrs, nargs, path)])
 
 \* successors: positions (in the operand list) of the successor slots, in the order of e.succs
 SuccsOf(e, ops) ==
@@ -471,13 +505,27 @@ FlagSets(e) == IF e.flags = <<>> THEN {} ELSE {<<f>> : f \in SeqToSet(e.flags)} 
 \* landingpad needs "cleanup" or at least one clause
 FixFlags(e, cfg, fl) == IF e.kind = "landingpad" /\ cfg.cnt[1] = 0 THEN <<"cleanup">> ELSE fl
 
-MkCase(e, fam, cls, cfg, fl, attrs, named, wrap) ==
-  LET ops == OpsOf(e, cls, cfg, attrs) IN
+\* alias: for every operand the operand whose value it shares (itself by default); the "alias"
+\* family makes two branch targets the same block (successors are a list with multiplicity)
+NoAlias(ops) == [i \in 1..Len(ops) |-> i]
+MkCaseP(e, fam, cls, cfg, fl, attrs, named, wrap, path, ali) ==
+  LET ops == OpsOf(e, cls, cfg, attrs, path) IN
   [kind |-> e.kind, cat |-> e.cat, fam |-> fam, cls |-> cls, cfg |-> cfg, flags |-> FixFlags(e, cfg, fl), attrs |-> attrs,
    named |-> named, wrap |-> wrap, T |-> Concrete[cls], ty |-> ExtraTy(e, cls),
-   res |-> IF e.res = "none" THEN TyVoid ELSE ResTy(e, cls, cfg, attrs),
-   idx |-> IF Has(e.idx, cls) THEN e.idx[cls] ELSE <<>>,
-   ops |-> ops, succs |-> SuccsOf(e, ops)]
+   res |-> IF e.res = "none" THEN TyVoid ELSE ResTy(e, cls, cfg, attrs, path),
+   idx |-> IF e.kind \in {"extractvalue", "insertvalue"} THEN path ELSE <<>>,
+   ops |-> ops, succs |-> SuccsOf(e, ops),
+   alias |-> IF ali = <<>> THEN NoAlias(ops) ELSE [i \in 1..Len(ops) |-> IF i = ali[2] THEN ali[1] ELSE i]]
+MkCase(e, fam, cls, cfg, fl, attrs, named, wrap) ==
+  MkCaseP(e, fam, cls, cfg, fl, attrs, named, wrap, DefPath(e, cls), <<>>)
+
+\* the configuration of an index path: a getelementptr has one index operand per path element
+PathCfg(e, cls, path) ==
+  IF e.kind = "getelementptr" THEN [DefaultCfg(e, cls) EXCEPT !.cnt[2] = Len(path)] ELSE DefaultCfg(e, cls)
+\* pairs <<i, j>>, i < j, of branch-target operands of a configuration
+TargetPairs(e, cls, cfg, attrs) ==
+  LET su == SuccsOf(e, OpsOf(e, cls, cfg, attrs, DefPath(e, cls))) IN
+  {<<su[q[1]], su[q[2]]>> : q \in {r \in (1..Len(su)) \X (1..Len(su)) : r[1] < r[2]}}
 
 Cases(e) ==
   LET dc == DefCls(e) da == DefAttrs(e) IN
@@ -488,6 +536,16 @@ Cases(e) ==
                DefaultCfg(e, IF e.variants[v].cls # "" THEN e.variants[v].cls ELSE dc), <<>>, e.variants[v].a, TRUE, FALSE)
           : v \in 1..Len(e.variants)}
   \cup {MkCase(e, "flags", FlagCls(e), DefaultCfg(e, FlagCls(e)), fl, da, TRUE, FALSE) : fl \in FlagSets(e)}
+  \* every index path of every class
+  \cup (IF HasPath(e)
+        THEN UNION {{MkCaseP(e, "path", c, PathCfg(e, c, PathsOf(e, c)[pi]), <<>>, da, TRUE, FALSE, PathsOf(e, c)[pi], <<>>)
+                      : pi \in 1..Len(PathsOf(e, c))} : c \in SeqToSet(e.classes)}
+        ELSE {})
+  \* every pair of branch targets shared, at the default configuration and (bundles aside) at every configuration
+  \cup (IF e.cat = "term" /\ e.succs # <<>> /\ e.kind # "invoke"      \* invoke: normal = unwind target is invalid
+        THEN UNION {{MkCaseP(e, "alias", dc, cfg, <<>>, da, TRUE, FALSE, <<>>, pr) : pr \in TargetPairs(e, dc, cfg, da)}
+                    : cfg \in {c \in Configs(e, dc) : c.bund = <<>>}}
+        ELSE {})
 
 \* sanity conditions every case must satisfy (checked as invariants by SchemaEnum)
 LabelRoles == {"label", "unwind target", "indirect dest", "case target", "handler"}
@@ -498,5 +556,8 @@ CaseWellFormed(e, c) ==
   /\ \A k \in 1..Len(c.ops) : c.ops[k].role \in LabelRoles =>
         Cardinality({n \in 1..Len(c.succs) : c.succs[n] = k}) = 1
   /\ (e.cat # "term" => c.succs = <<>>)
+  \* constant struct indices of a getelementptr are valid field numbers; shared operands have one type
+  /\ \A k \in 1..Len(c.ops) : c.ops[k].cv >= 0 => c.ops[k].src = "const"
+  /\ \A k \in 1..Len(c.ops) : c.alias[k] <= k /\ c.ops[c.alias[k]].ty = c.ops[k].ty
 
 =============================================================================
